@@ -173,6 +173,20 @@ where
             ));
         }
 
+        // The extended domain used for the quotient polynomial must fit in the
+        // 2-adic subgroup as well (`EvaluationDomain::new` asserts it).
+        let quotient_poly_degree = (cs.degree() as u128).saturating_sub(1);
+        let mut extended_k = k as u32;
+        while (1u128 << extended_k) < (1u128 << k) * quotient_poly_degree {
+            extended_k += 1;
+        }
+        if extended_k > F::S {
+            return Err(io::Error::new(
+                io::ErrorKind::InvalidData,
+                format!("extended circuit size value: {} exceeds maxium: {}", extended_k, F::S),
+            ));
+        }
+
         let domain = EvaluationDomain::new(cs.degree() as u32, k.into());
 
         let mut num_fixed_columns = [0u8; 4];
